@@ -125,6 +125,7 @@ Glu_alloc(
 	else fsupc = jcol;
 	*prev_next = Glu->map_in_sup[fsupc];
 	Glu->map_in_sup[fsupc] += num;
+	SLU_MT_VERIF_EVENT(9, pnum, jcol, num, *prev_next);
 
 #if 0
 	{
